@@ -88,7 +88,20 @@ def report_feature(text):
         feats.append("arch")
     if not feats:
         feats.append("empty" if not text.strip() else "other-text")
+    feats.extend(anonymous_markers(text))
     return "+".join(feats)
+
+
+def anonymous_markers(text):
+    """Does the report talk about anonymous types in compound positions?  (A family of reader defects of its own.)"""
+    out = []
+    if re.search(r"\b(const|volatile|restrict) __anonymous_(struct|union|enum)__", text):
+        out.append("qualified-anonymous-type")
+    if re.search(r"__anonymous_(struct|union|enum)__\d*\s*\*", text):
+        out.append("pointer-to-anonymous-type")
+    if re.search(r"__anonymous_(struct|union|enum)__\d*\s*\[", text):
+        out.append("array-of-anonymous-type")
+    return out
 
 
 def abnormal_violation(r, res, what):
